@@ -190,14 +190,31 @@ func (e *specEnv) eval(x Expr) sv {
 	case *EQuant:
 		ne := e.child()
 		var vars [][2]string
+		var guards []string
 		for _, qv := range n.Vars {
 			ty := c.eng.resolveType(e.pkg, qv.Type)
 			e.c.nfresh++
 			name := fmt.Sprintf("%s!q%d", qv.Name, e.c.nfresh)
 			vars = append(vars, [2]string{name, c.sorts.sortOf(ty)})
 			ne.vars[qv.Name] = sv{name, ty}
+			// bound variables range over type-valid values only (spec ints are mathematical)
+			switch types.Unalias(ty).Underlying().(type) {
+			case *types.Slice:
+				guards = append(guards, app("validSlice", name))
+			case *types.Interface:
+				guards = append(guards, app("validVal", name))
+			case *types.Pointer, *types.Map:
+				guards = append(guards, le("0", name))
+			}
 		}
 		body := ne.eval(n.Body)
+		if len(guards) > 0 {
+			if n.Forall {
+				body.t = implies(and(guards...), body.t)
+			} else {
+				body.t = and(append(guards, body.t)...)
+			}
+		}
 		var pats []string
 		for _, p := range n.Pats {
 			pats = append(pats, ne.eval(p).t)
@@ -442,6 +459,10 @@ func (e *specEnv) evalCall(n *ECall) sv {
 	case "bigval":
 		need(1)
 		return sv{sel(c.bigHeap(), args()[0].t), tInt}
+	case "ediv":
+		need(2)
+		as := args()
+		return sv{app("div", as[0].t, as[1].t), tInt}
 	case "wrap64", "wrap32", "wrapu8", "tdiv", "tmod":
 		as := args()
 		ts := make([]string, len(as))
@@ -535,6 +556,25 @@ func (e *specEnv) evalCall(n *ECall) sv {
 		}
 		psorts = append(psorts, c.sorts.sortOf(pty))
 		ts = append(ts, a.t)
+	}
+	if len(sf.Reads) > 0 {
+		snap := heapState{}
+		key := ""
+		for _, h := range sf.Reads {
+			srt, ok := c.eng.heapSortByName(c, h)
+			if !ok {
+				specFail("spec function %s reads unknown heap %s", sf.Name, h)
+			}
+			psorts = append(psorts, srt)
+			t := c.heapGet(h, srt)
+			ts = append(ts, t)
+			snap[h] = t
+			key += h + "=" + t + ";"
+		}
+		if _, ok := c.readSnaps[key]; !ok && !c.inAxiom {
+			c.readSnaps[key] = snap
+			c.readSnapOrder = append(c.readSnapOrder, key)
+		}
 	}
 	rty := c.eng.resolveType(e.pkg, sf.Result)
 	c.declareFun("sf_"+sf.Name, psorts, c.sorts.sortOf(rty))
